@@ -106,6 +106,8 @@ func main() {
 	// deterministic streams: restarted registers with stale raw content; Pow with a magic exponent (streams.go)
 	staleStream(emit)
 	powStream(emit)
+	// round 7: LogAdd at operand separations beyond the overflow threshold of exp and at every +-Inf combination (extreme.go)
+	logAddExtremeStream(emit)
 	// receiver = operand aliasing enumerated over every method x {generic, concrete} x alias pattern; in-place programs (alias.go)
 	aliasStream(emit)
 	inplaceStream(emit)
